@@ -7,15 +7,27 @@ SEEDED = "/verif/seeded"
 args = [a for a in sys.argv[1:] if not a.startswith("--")]
 allprops = "--all-props" in sys.argv
 ids = sorted(d for d in os.listdir(SEEDED) if os.path.isdir(os.path.join(SEEDED, d)) and (not args or d in args))
-env = dict(os.environ)
+ENV = env = dict(os.environ)
 env.setdefault("LR_CACHE", "/verif/.cache")
 env.setdefault("LR_DRIVER", "/verif/driver/target/release/lrfacts")
 env.setdefault("LR_PESTFACTS", "/verif/pestfacts/target/release/pestfacts")
 env["LR_TARGET_SLOT"] = "-seed"
 env["LR_EVIDENCE_DIR"] = "/var/tmp/lr-evidence-seed"
 props = [json.loads(l)["id"] for l in open(os.path.join(V, "properties.jsonl"))]
+jobs = 1
+for a in sys.argv[1:]:
+    if a.startswith("--jobs="):
+        jobs = int(a.split("=")[1])
 rows = []
-for sid in ids:
+
+
+def one(arg):
+    wi, sid = arg
+    env = dict(ENV)
+    env["LR_TARGET_SLOT"] = "-seed%d" % wi
+    env["LR_EVIDENCE_DIR"] = "/var/tmp/lr-evidence-seed%d" % wi
+    rows = []
+    own = []
     d = os.path.join(SEEDED, sid)
     meta = json.load(open(os.path.join(d, "meta.json")))
     prop = meta["property"]
@@ -27,7 +39,7 @@ for sid in ids:
             r = subprocess.run(["patch", "-p1", "-d", scratch, "-i", os.path.join(d, "patch.diff")], capture_output=True, text=True)
         if r.returncode != 0:
             rows.append((sid, prop, "PATCH-DOES-NOT-APPLY", []))
-            continue
+            return rows[-1]
         env["LR_REPO"] = scratch
         res = {}
         for p in (props if allprops else [prop]):
@@ -36,15 +48,35 @@ for sid in ids:
             res[p] = sorted(set(k.split("|")[0] for k in keys if not k.startswith("FLOOR")))
             if p == prop:
                 own = keys
-        detected = bool(res.get(prop))
+        real = [r_ for r_ in res.get(prop, []) if r_ not in ("INTERNAL", "FACTS", "ANCHOR")]
+        detected = bool(real)
         meta["detected_by"] = res
         meta["detected"] = detected
         meta["violation_keys"] = own[:6]
         json.dump(meta, open(os.path.join(d, "meta.json"), "w"), indent=1)
-        rows.append((sid, prop, "DETECTED" if detected else "MISSED", res.get(prop, [])))
+        rows.append((sid, prop, "DETECTED" if detected else ("CHECK-ERROR" if res.get(prop) else "MISSED"), res.get(prop, [])))
     finally:
         shutil.rmtree(scratch, ignore_errors=True)
     print(rows[-1], flush=True)
+    return rows[-1]
+
+
+from multiprocessing.pool import ThreadPool
+import itertools
+pool = ThreadPool(jobs)
+counter = itertools.count()
+import threading
+_slots = {}
+
+
+def run(sid):
+    tid = threading.get_ident()
+    if tid not in _slots:
+        _slots[tid] = len(_slots)
+    return one((_slots[tid], sid))
+
+
+rows = pool.map(run, ids, chunksize=1)
 print("\n| seed | property | verdict | rules that fire |\n|---|---|---|---|")
 for sid, prop, v, rules in rows:
     print("| %s | %s | %s | %s |" % (sid, prop, v, ", ".join(rules)))
